@@ -55,6 +55,10 @@ type Fail struct {
 	Kind    string `json:"kind"`              // panic | hang | mismatch | ...
 	Msg     string `json:"msg"`               // what was expected / observed
 	Pattern string `json:"pattern,omitempty"` // pattern-id for known-finding matching
+	// Loose: the failure comes from a dynamic detector whose report text varies between runs
+	// (race detector); re-executions are compared by kind only and a report that does not
+	// recur is still a report (a race report is never a false positive).
+	Loose bool `json:"loose,omitempty"`
 }
 
 func Failf(kind, format string, a ...interface{}) *Fail {
@@ -198,11 +202,11 @@ func (t *T) Case(desc string, nontrivial bool, run func() (string, *Fail)) {
 			for r := 0; r < 5; r++ {
 				_, f2 := t.guard(run)
 				vtick.Reset(vtick.Off)
-				if f2 != nil && f2.Kind == f.Kind && f2.Msg == f.Msg {
+				if f2 != nil && f2.Kind == f.Kind && (f2.Msg == f.Msg || f.Loose) {
 					v.Reproduced++
 				}
 			}
-			v.Flaky = v.Reproduced != 5
+			v.Flaky = v.Reproduced != 5 && !f.Loose
 			t.sum.Violations = append(t.sum.Violations, v)
 		}
 		if t.verbose {
